@@ -44,7 +44,7 @@ pub fn run(ctx: &Ctx) -> Value {
             i64::MIN as i128, i64::MIN as i128 + 1, i64::MAX as i128 - 1, i64::MAX as i128, (i64::MAX as i128).div_euclid(u), (i64::MIN as i128).div_euclid(u),
             (i64::MAX as i128).div_euclid(u) + 1, (i64::MIN as i128).div_euclid(u) - 1];
         for d in -2..=2 { cs.push(lo + d); cs.push(hi + d); }
-        for _ in 0..ctx.t(60, 20_000) {
+        for _ in 0..ctx.t(300, 20_000) {
             cs.push(match rng.below(3) { 0 => rng.loguniform(63) as i128, 1 => rng.next() as i64 as i128, _ => lo + (rng.next() as i128 % (hi - lo + 1)) });
         }
         for c in cs {
@@ -73,13 +73,13 @@ pub fn run(ctx: &Ctx) -> Value {
     let lo_s = min_ns().div_euclid(NS) as i64;
     let hi_s = max_ns().div_euclid(NS) as i64;
     let mut ss: Vec<i64> = vec![0, -1, 1, 58, 59, 60, -2, -61, 119, 1_483_228_799, 1_483_228_800, lo_s - 1, lo_s, lo_s + 59, hi_s - 60, hi_s - 1, hi_s, hi_s + 1, i64::MIN, i64::MAX];
-    for _ in 0..ctx.t(40, 5_000) { let s = rng.range(lo_s, hi_s); ss.push(s); ss.push(s - s.rem_euclid(60) + 59); }
+    for _ in 0..ctx.t(200, 5_000) { let s = rng.range(lo_s, hi_s); ss.push(s); ss.push(s - s.rem_euclid(60) + 59); }
     for &s in &ss { for nn in [0u32, 1, 999_999_999, 1_000_000_000, 1_000_000_001, 1_999_999_999, 2_000_000_000, u32::MAX] {
         tw.emit(ev("ts.from2", json!({"s": big(s as i128), "nn": big(nn as i128)}), || json!({"r": odt(DateTime::from_timestamp(s, nn))})));
         if nn % 3 == 0 { tw.emit(ev("ts.from2", json!({"s": big(s as i128), "nn": big(nn as i128)}), || json!({"r": odt(Utc.timestamp_opt(s, nn).single())}))); }
     }}
     // reading back
-    let dts = dt_lattice(&mut rng, ctx.t(800, 200_000), false);
+    let dts = dt_lattice(&mut rng, ctx.t(3_000, 200_000), false);
     for &x in &dts {
         let u = x.and_utc();
         tw.emit(ev("dt.ts", json!({"dt": ndt(x)}), || json!({"s": big(u.timestamp() as i128), "ms": big(u.timestamp_millis() as i128), "us": big(u.timestamp_micros() as i128),
@@ -91,7 +91,7 @@ pub fn run(ctx: &Ctx) -> Value {
     }
     // the system clock type
     let mut n_sys = 0;
-    for _ in 0..ctx.t(600, 50_000) {
+    for _ in 0..ctx.t(2_000, 50_000) {
         let s = match rng.below(4) { 0 => rng.range(lo_s, hi_s), 1 => rng.range(-4_000_000_000, 4_000_000_000), 2 => *rng.pick(&[lo_s, lo_s + 1, hi_s - 1, hi_s, 0, -1, 1]), _ => rng.loguniform(42) };
         let nn = *rng.pick(&[0u32, 1, 500_000_000, 999_999_999]);
         if s < lo_s || s > hi_s { continue; }
